@@ -110,7 +110,7 @@ def print_assumptions(prop_file):
 
 
 def build_replayer():
-    srcs = coq_sources() + [os.path.join(REPLAY, "main.ml"), os.path.join(REPLAY, "monitors.ml"), os.path.join(REPLAY, "shared.ml"), os.path.join(REPLAY, "smonitors.ml"), os.path.join(REPLAY, "lease.ml"),
+    srcs = coq_sources() + [os.path.join(REPLAY, "main.ml"), os.path.join(REPLAY, "monitors.ml"), os.path.join(REPLAY, "shared.ml"), os.path.join(REPLAY, "smonitors.ml"), os.path.join(REPLAY, "lease.ml"), os.path.join(REPLAY, "eventer.ml"),
                             os.path.join(REPLAY, "build.sh")]
     exe = os.path.join(REPLAY, "replay.exe")
     if newer(srcs, exe):
@@ -136,6 +136,35 @@ def build_harness():
     if rc != 0:
         return None, out
     return exe, out
+
+
+def build_harness_race():
+    """The same harness under the race detector (cgo), for the concurrent-use stress."""
+    exe = os.path.join(WORK, "harness_race.test")
+    rc, out = sh("go1.26 test -race -c -tags verif -o %s ." % exe, cwd=HARNESS, env=dict(GOENV, CGO_ENABLED="1"), timeout=1200)
+    if rc != 0:
+        return None, out
+    return exe, out
+
+
+def run_stress(exe, seed, ms, outdir, runs=4):
+    """Runs TestStress `runs` times in parallel (different seeds); returns [(rc, logfile)]."""
+    os.makedirs(outdir, exist_ok=True)
+
+    def work(k):
+        env = dict(GOENV, VERIF_OUT=outdir, VERIF_SEED=str(seed + k), VERIF_STRESS_MS=str(ms), GORACE="halt_on_error=0")
+        try:
+            p = subprocess.run([exe, "-test.run", "^TestStress$", "-test.timeout", "600s"], env=env,
+                               stdout=subprocess.PIPE, stderr=subprocess.STDOUT, text=True, timeout=900)
+            rc, out = p.returncode, p.stdout
+        except subprocess.TimeoutExpired as e:
+            rc, out = 124, (e.stdout or "") + "\nTIMEOUT (deadlock under concurrent use?)"
+        log = os.path.join(outdir, "stress-%d.log" % (seed + k))
+        open(log, "w").write("# seed %d ms %d\n" % (seed + k, ms) + out)
+        return rc, log
+
+    with ThreadPoolExecutor(max_workers=NCPU) as ex:
+        return list(ex.map(work, range(runs)))
 
 
 def azblob_dir():
